@@ -508,14 +508,31 @@ spec fn second_success(jb: NodeInfo) -> bool {
 }
 
 impl<T: PPGEvaluatorStrategy> PPGEvaluator<T> {
-    /// records of present job i after the per-job loop of new_history (C08, C09, C11)
-    spec fn job_rec_ok(&self, out1: Map<String, String>, out: Map<String, String>, i: int) -> bool {
+    /// C11: a job with a current output has exactly that output and the current input list recorded
+    spec fn rec_c11(&self, out: Map<String, String>, i: int) -> bool {
         let j = self.jobs@[i];
         let ik = str_of(key_inputs(j.job_id@));
-        &&& (j.history_output is Some ==> out.contains_key(j.job_id) && out[j.job_id] == j.history_output.unwrap()
-                && out.contains_key(ik) && out[ik]@ == self.strategy.input_list(i as usize, &self.dag, self.jobs@))
-        &&& (j.history_output is None && !keeps_records(j.state) ==> !out.contains_key(j.job_id) && !out.contains_key(ik))
-        &&& (j.history_output is None && keeps_records(j.state) ==> same_at(out1, out, j.job_id) && same_at(out1, out, ik))
+        j.history_output is Some ==> out.contains_key(j.job_id) && out[j.job_id] == j.history_output.unwrap()
+            && out.contains_key(ik) && out[ik]@ == self.strategy.input_list(i as usize, &self.dag, self.jobs@)
+    }
+
+    /// C08: a job without output that is not merely upstream-failed has no own / input-list record
+    spec fn rec_c08(&self, out: Map<String, String>, i: int) -> bool {
+        let j = self.jobs@[i];
+        let ik = str_of(key_inputs(j.job_id@));
+        j.history_output is None && !keeps_records(j.state) ==> !out.contains_key(j.job_id) && !out.contains_key(ik)
+    }
+
+    /// C09: an upstream-failed job keeps its own / input-list record as filtered
+    spec fn rec_c09(&self, out1: Map<String, String>, out: Map<String, String>, i: int) -> bool {
+        let j = self.jobs@[i];
+        let ik = str_of(key_inputs(j.job_id@));
+        j.history_output is None && keeps_records(j.state) ==> same_at(out1, out, j.job_id) && same_at(out1, out, ik)
+    }
+
+    /// records of present job i after the per-job loop of new_history (C08, C09, C11)
+    spec fn job_rec_ok(&self, out1: Map<String, String>, out: Map<String, String>, i: int) -> bool {
+        self.rec_c11(out, i) && self.rec_c08(out, i) && self.rec_c09(out1, out, i)
     }
 
     /// what the filter at the top of new_history leaves (C18)
@@ -538,13 +555,20 @@ impl<T: PPGEvaluatorStrategy> PPGEvaluator<T> {
         key_edge(self.jobs@[a as int].job_id@, self.jobs@[b as int].job_id@)
     }
 
-    /// record of present edge (a,b) after the edge loop of new_history (C08, C11)
-    spec fn edge_rec_ok(&self, out2: Map<String, String>, out: Map<String, String>, a: usize, b: usize) -> bool {
-        let ja = self.jobs@[a as int];
-        let jb = self.jobs@[b as int];
+    /// C08/C09: the record of a dependency into a job that did not succeed is left as it was
+    spec fn edge_c08(&self, out2: Map<String, String>, out: Map<String, String>, a: usize, b: usize) -> bool {
+        !second_success(self.jobs@[b as int]) ==> same_at(out2, out, str_of(self.edge_key(a, b)))
+    }
+
+    /// C11: the record of a dependency into a successful job is the upstream's current output
+    spec fn edge_c11(&self, out: Map<String, String>, a: usize, b: usize) -> bool {
         let ek = str_of(self.edge_key(a, b));
-        &&& (!second_success(jb) ==> same_at(out2, out, ek))
-        &&& (second_success(jb) && ja.history_output is Some ==> out.contains_key(ek) && out[ek] == ja.history_output.unwrap())
+        second_success(self.jobs@[b as int]) && self.jobs@[a as int].history_output is Some
+            ==> out.contains_key(ek) && out[ek] == self.jobs@[a as int].history_output.unwrap()
+    }
+
+    spec fn edge_rec_ok(&self, out2: Map<String, String>, out: Map<String, String>, a: usize, b: usize) -> bool {
+        self.edge_c08(out2, out, a, b) && self.edge_c11(out, a, b)
     }
 
     spec fn not_edge_key(&self, k: String, es: Seq<(usize, usize, &EdgeInfo)>, upto: int) -> bool {
